@@ -84,6 +84,33 @@ fn apply(module: &mut Module, e: &Value) -> Result<(), String> {
                 other => Err(format!("set_bitmask: kind {other}")),
             }
         }
+        "set_ecu_address" | "add_annotation" | "set_format" => {
+            let op = e["op"].as_str().unwrap_or("");
+            macro_rules! edit {
+                ($list:ident) => {
+                    match module.$list.get_mut(name) {
+                        Some(x) => {
+                            match op {
+                                "set_ecu_address" => x.ecu_address_extension = Some(EcuAddressExtension::new(2)),
+                                "set_format" => x.format = Some(Format::new("%8.3".to_string())),
+                                _ => {
+                                    let mut a = Annotation::new();
+                                    a.annotation_label = Some(AnnotationLabel::new("added through the API".to_string()));
+                                    x.annotation.push(a);
+                                }
+                            }
+                            Ok(())
+                        }
+                        None => Err(format!("no {kind} {name}")),
+                    }
+                };
+            }
+            match kind {
+                "MEASUREMENT" => edit!(measurement),
+                "CHARACTERISTIC" => edit!(characteristic),
+                other => Err(format!("{op}: kind {other}")),
+            }
+        }
         other => Err(format!("unknown op {other}")),
     }
 }
